@@ -4,13 +4,18 @@ from assemble import *
 u = sys.argv[1]
 ud = os.path.join(VERIF, "units", u)
 cfg = json.load(open(os.path.join(ud, "unit.json")))
+fsi = int(os.environ.get("VX_FS", "0"))
+features = cfg["feature_sets"][fsi]
 os.makedirs(os.path.join(VERIF, "out"), exist_ok=True)
-ex = run_extract(os.environ.get("VX_REPO","/repo"), cfg["feature_sets"][0], cfg["items"], os.path.join(VERIF, "out"))
+ex = run_extract(os.environ.get("VX_REPO","/repo"), features, unit_items(cfg, features), os.path.join(VERIF, "out"))
+preludes = [os.path.join(VERIF, "prelude", p) for p in cfg["prelude"]]
+for feat, extra in cfg.get("prelude_if", {}).items():
+    if feat in features:
+        preludes += [os.path.join(VERIF, "prelude", p) for p in extra]
 try:
-    pass
-except Exception:
-    pass
-A = assemble_unit(u, ud, cfg, ex, [os.path.join(VERIF, "prelude", p) for p in cfg["prelude"]], canary="--canary" in sys.argv)
+    A = assemble_unit(u, ud, cfg, ex, preludes, canary="--canary" in sys.argv, features=features)
+except Undecided as e:
+    print("UNDECIDED", e.reason, e.detail); sys.exit(2)
 p = os.path.join(VERIF, "out", u + ".rs")
 open(p, "w").write(A.text())
 r = subprocess.run(["verus", p, "--multiple-errors", "20"] + [a for a in sys.argv[2:] if a != "--canary"], capture_output=True, text=True)
